@@ -1066,8 +1066,13 @@ impl WasmGenerator {
         // For each MIR function, generate WASM function body
         for (mir_fn_idx, func) in functions.iter().enumerate() {
             self.current_mir_fn_idx = mir_fn_idx;
+            // Compile-time fixed `Alloc` slots are only safe when no pointer to
+            // them outlives the call: a function returning a multi-word aggregate
+            // hands such a pointer to its caller, and a second call would
+            // overwrite the first result while the caller still reads it.
             self.use_runtime_alloc_for_current_function =
-                Self::function_has_non_external_calls(func);
+                Self::function_has_non_external_calls(func)
+                    || Self::function_returns_aggregate(func);
 
             // Reset register mapping and type tracking for each function
             self.registers.clear();
@@ -2241,6 +2246,20 @@ impl WasmGenerator {
             .any(|(_, instr)| match instr {
                 I::Call(fn_ptr, _, _) => !matches!(fn_ptr.as_ref(), mir::Value::ExtFunction(_, _)),
                 I::CallIndirect(_, _, _) | I::CallCls(_, _, _) => true,
+                _ => false,
+            })
+    }
+
+    /// Returns true if the function returns a multi-word value (tuple, record,
+    /// tagged union), i.e. a pointer into linear memory rather than a scalar.
+    fn function_returns_aggregate(func: &mir::Function) -> bool {
+        use mir::Instruction as I;
+
+        func.body
+            .iter()
+            .flat_map(|bb| bb.0.iter())
+            .any(|(_, instr)| match instr {
+                I::Return(_, ty) | I::ReturnFeed(_, ty) => ty.word_size() > 1,
                 _ => false,
             })
     }
